@@ -41,6 +41,8 @@ impl Outcome {
 }
 
 struct Reply {
+    /// 0: sent by the simulated thread itself; otherwise the watchdog's answer for call `seq`
+    seq: u64,
     outcome: Outcome,
     getrandom_in_generate: u64,
     clock_reads_in_generate: u64,
@@ -57,6 +59,7 @@ enum Cmd {
 struct SimThread {
     tx: Sender<Cmd>,
     rx: Receiver<Reply>,
+    reply_tx: Sender<Reply>,
     handle: Option<std::thread::JoinHandle<()>>,
 }
 
@@ -84,6 +87,7 @@ impl SimThread {
     fn spawn(keys: (u64, u64)) -> SimThread {
         let (ctx, crx) = channel::<Cmd>();
         let (rtx, rrx) = channel::<Reply>();
+        let reply_tx = rtx.clone();
         let handle = std::thread::Builder::new()
             .stack_size(64 << 20)
             .spawn(move || {
@@ -104,6 +108,7 @@ impl SimThread {
                             let e1 = GETENV_IN_GENERATE.load(Ordering::SeqCst);
                             let canary = canary_order();
                             let _ = rtx.send(Reply {
+                                seq: 0,
                                 outcome,
                                 getrandom_in_generate: g1 - g0,
                                 clock_reads_in_generate: c1 - c0,
@@ -114,6 +119,7 @@ impl SimThread {
                         Cmd::Canary => {
                             let canary = canary_order();
                             let _ = rtx.send(Reply {
+                                seq: 0,
                                 outcome: Outcome { class: "canary", payload: String::new() },
                                 getrandom_in_generate: 0,
                                 clock_reads_in_generate: 0,
@@ -126,11 +132,40 @@ impl SimThread {
                 }
             })
             .expect("spawn simulated thread");
-        SimThread { tx: ctx, rx: rrx, handle: Some(handle) }
+        SimThread { tx: ctx, rx: rrx, reply_tx, handle: Some(handle) }
     }
-    fn call(&self, cmd: Cmd) -> Reply {
+    /// Sends a command and blocks for the reply. A watchdog thread (REAL time through the raw
+    /// syscall clock; the interposed clock is the simulated one) answers in the thread's place if
+    /// the call does not return within `generate_timeout_s()`. `None`: the call did not return —
+    /// the thread is abandoned (it cannot be killed) and must not be used again. The watchdog
+    /// exists for the harness's own termination; it observes and never steers a run that behaves
+    /// (limit 20 s against a typical millisecond).
+    fn call(&self, cmd: Cmd) -> Option<Reply> {
+        start_call_watchdog();
+        let seq = CALL_SEQ.fetch_add(1, Ordering::SeqCst) + 1;
+        {
+            *CALL_WATCH.lock().unwrap() = Some((seq, real_now_s(), self.reply_tx.clone()));
+        }
         self.tx.send(cmd).expect("send");
-        self.rx.recv().expect("simulated thread died")
+        let r = loop {
+            let r = self.rx.recv().expect("simulated thread died");
+            // a reply for an earlier, timed-out call may still be queued: skip it
+            if r.seq == 0 || r.seq == seq {
+                break r;
+            }
+        };
+        {
+            *CALL_WATCH.lock().unwrap() = None;
+        }
+        if r.outcome.class == "timeout" {
+            None
+        } else {
+            Some(r)
+        }
+    }
+    /// Drops the handle without joining (used for a thread stuck in a call).
+    fn abandon(mut self) {
+        self.handle.take();
     }
     fn retire(mut self) {
         let _ = self.tx.send(Cmd::Exit);
@@ -138,6 +173,38 @@ impl SimThread {
             let _ = h.join();
         }
     }
+}
+
+fn generate_timeout_s() -> f64 {
+    std::env::var("VERIF_GENERATE_TIMEOUT_S").ok().and_then(|s| s.parse().ok()).unwrap_or(20.0)
+}
+
+static TIMEOUTS: AtomicU64 = AtomicU64::new(0);
+static CALL_SEQ: AtomicU64 = AtomicU64::new(0);
+static CALL_WATCH: std::sync::Mutex<Option<(u64, f64, Sender<Reply>)>> = std::sync::Mutex::new(None);
+static WATCHDOG_STARTED: std::sync::Once = std::sync::Once::new();
+
+fn start_call_watchdog() {
+    WATCHDOG_STARTED.call_once(|| {
+        let limit = generate_timeout_s();
+        std::thread::spawn(move || loop {
+            std::thread::sleep(std::time::Duration::from_millis(200));
+            let mut w = CALL_WATCH.lock().unwrap();
+            if let Some((seq, t0, tx)) = w.as_ref() {
+                if real_now_s() - *t0 > limit {
+                    let _ = tx.send(Reply {
+                        seq: *seq,
+                        outcome: timeout_outcome(),
+                        getrandom_in_generate: 0,
+                        clock_reads_in_generate: 0,
+                        getenv_in_generate: 0,
+                        canary: 0,
+                    });
+                    *w = None;
+                }
+            }
+        });
+    });
 }
 
 // ------------------------------------------------------------------- script
@@ -189,12 +256,24 @@ fn reset_ambient(base_dir: &str) {
     SIM_TICK_NS.store(0, Ordering::SeqCst);
 }
 
+fn timeout_outcome() -> Outcome {
+    Outcome { class: "timeout", payload: String::new() }
+}
+
 fn canonical(text: &str, base_dir: &str) -> Outcome {
     reset_ambient(base_dir);
     let t = SimThread::spawn((0, 0));
-    let r = t.call(Cmd::Generate(Arc::from(text), 0));
-    t.retire();
-    r.outcome
+    match t.call(Cmd::Generate(Arc::from(text), 0)) {
+        Some(r) => {
+            t.retire();
+            r.outcome
+        }
+        None => {
+            TIMEOUTS.fetch_add(1, Ordering::SeqCst);
+            t.abandon();
+            timeout_outcome()
+        }
+    }
 }
 
 fn exec_script(script: &Script, texts: &[Arc<str>], base_dir: &str, upto: Option<usize>) -> Vec<CallRecord> {
@@ -227,6 +306,25 @@ fn exec_script(script: &Script, texts: &[Arc<str>], base_dir: &str, upto: Option
         let r = threads[st.inc].as_ref().unwrap().call(Cmd::Generate(texts[st.text].clone(), st.env_salt));
         SIM_TICK_NS.store(0, Ordering::SeqCst);
         calls[st.inc] += 1;
+        let r = match r {
+            Some(r) => r,
+            None => {
+                // the call did not return: abandon the thread and the rest of this script
+                TIMEOUTS.fetch_add(1, Ordering::SeqCst);
+                if let Some(t) = threads[st.inc].take() {
+                    t.abandon();
+                }
+                out.push(CallRecord {
+                    outcome: timeout_outcome(),
+                    canary: 0,
+                    getrandom_in_generate: 0,
+                    clock_reads_in_generate: 0,
+                    getenv_in_generate: 0,
+                    nth_call_on_thread: calls[st.inc],
+                });
+                break;
+            }
+        };
         out.push(CallRecord {
             outcome: r.outcome,
             canary: r.canary,
@@ -518,8 +616,11 @@ fn fails(f: &Failure, base_dir: &str) -> Option<(Outcome, Outcome)> {
     let st = &f.script.steps[f.failing_step];
     let canon = canonical(&f.texts[st.text], base_dir);
     let recs = exec_script(&f.script, &f.texts, base_dir, Some(f.failing_step));
+    if recs.len() <= f.failing_step {
+        return None;
+    }
     let got = &recs[f.failing_step].outcome;
-    if *got != canon {
+    if *got != canon && got.class != "timeout" && canon.class != "timeout" {
         Some((canon, got.clone()))
     } else {
         None
@@ -660,12 +761,12 @@ fn probe() -> Result<J, String> {
     let mut same = vec![];
     for i in 0..8u64 {
         let t = SimThread::spawn((0x1234_5678_9ABC_DEF0u64.wrapping_mul(i + 1), i));
-        orders.insert(t.call(Cmd::Canary).canary);
+        orders.insert(t.call(Cmd::Canary).expect("canary").canary);
         t.retire();
     }
     for _ in 0..2 {
         let t = SimThread::spawn((77, 99));
-        same.push(t.call(Cmd::Canary).canary);
+        same.push(t.call(Cmd::Canary).expect("canary").canary);
         t.retire();
     }
     let g1 = GETRANDOM_CALLS.load(Ordering::SeqCst);
@@ -788,12 +889,17 @@ fn main() {
             let mut reused_calls = 0u64;
             let mut violations: Vec<J> = vec![];
             let mut samples: Vec<J> = vec![];
+            let mut timeout_texts: BTreeSet<usize> = BTreeSet::new();
             let mut multi_violation_texts: BTreeSet<usize> = BTreeSet::new();
             let mut suffix_path_texts: BTreeSet<usize> = BTreeSet::new();
             let mut conflict_texts: BTreeSet<usize> = BTreeSet::new();
             let mut r = from;
             while r < to {
                 if real_now_s() - t0 > budget_s {
+                    break;
+                }
+                if TIMEOUTS.load(Ordering::SeqCst) >= 2 {
+                    // abandoned threads keep burning CPU: stop this worker early
                     break;
                 }
                 let mut rng = Rng::derive(seed, &[ENGINE_A, r]);
@@ -891,6 +997,13 @@ fn main() {
                         log.push_str(&line);
                     }
                     let c = &canon[&id];
+                    if rec.outcome.class == "timeout" || c.class == "timeout" {
+                        // the call (or the canonical call) did not return within the real-time
+                        // limit: that is C07's subject, not a statement about C14
+                        *class_counts.entry("timeout_calls_skipped".into()).or_insert(0) += 1;
+                        timeout_texts.insert(id);
+                        continue;
+                    }
                     if rec.outcome != *c && violations.len() < 3 {
                         let f = Failure { script: script.clone(), texts: texts.clone(), failing_step: i };
                         let (small, shrink_steps) = shrink(f, &base_dir, 400);
@@ -984,6 +1097,8 @@ fn main() {
                 .set("canonical_digests", canon_j)
                 .set("samples", J::Arr(samples))
                 .set("violations", J::Arr(violations))
+                .set("generate_timeouts", J::Int(TIMEOUTS.load(Ordering::SeqCst) as i128))
+                .set("timeout_text_ids", J::Arr(timeout_texts.iter().map(|i| J::uz(*i)).collect()))
                 .set("wall_s", J::Int(((real_now_s() - t0) * 1000.0) as i128));
             std::fs::write(&out, summary.to_string()).expect("write summary");
         }
